@@ -52,10 +52,11 @@ class LexError(Exception):
 class Tok(object):
     """One preprocessing token.  s: spelling, kind, ws: preceded by white space (incl. comments), bol: first token
     on its (logical) line, line: physical line of its first character, hs: hide set, oline: line that __LINE__ is to
-    report for this token (line of the outermost macro invocation it came from)."""
-    __slots__ = ("s", "kind", "ws", "bol", "line", "hs", "oline")
+    report for this token (line of the outermost macro invocation it came from), org: "#" for a string literal that
+    the # operator produced (evidence only: nested quoting), else None."""
+    __slots__ = ("s", "kind", "ws", "bol", "line", "hs", "oline", "org")
 
-    def __init__(self, s, kind, ws=False, bol=False, line=0, hs=frozenset(), oline=None):
+    def __init__(self, s, kind, ws=False, bol=False, line=0, hs=frozenset(), oline=None, org=None):
         self.s = s
         self.kind = kind
         self.ws = ws
@@ -63,9 +64,10 @@ class Tok(object):
         self.line = line
         self.hs = hs
         self.oline = line if oline is None else oline
+        self.org = org
 
     def copy(self):
-        return Tok(self.s, self.kind, self.ws, self.bol, self.line, self.hs, self.oline)
+        return Tok(self.s, self.kind, self.ws, self.bol, self.line, self.hs, self.oline, self.org)
 
     def __repr__(self):
         return "Tok(%r)" % self.s
@@ -352,13 +354,17 @@ class _PM(object):
 PLACEMARKER = _PM()
 
 
-def stringize(toks):
-    """6.10.3.2p2."""
+def stringize(toks, escape_everything=False):
+    """6.10.3.2p2: the spelling of every token, one space where white space separated two tokens, a \\ inserted before
+    each " and \\ of a string literal or character constant (of any prefix) - and nowhere else.  The result must be
+    ONE valid string literal, else the behaviour is undefined.
+    escape_everything=True is not the standard: it transcribes a known deviation of the pinned chibicc tree (a \\ before
+    every " and \\ of the text, also outside literals) so that a check can recognise exactly that deviation."""
     parts = []
     for k, t in enumerate(toks):
         if k > 0 and (t.ws or t.bol):
             parts.append(" ")
-        if t.kind in (STR, CHR):
+        if t.kind in (STR, CHR) or escape_everything:
             parts.append(t.s.replace("\\", "\\\\").replace('"', '\\"'))
         else:
             parts.append(t.s)
@@ -420,8 +426,10 @@ class Source(object):
 class Preprocessor(object):
     MAX_STEPS = 200000
 
-    def __init__(self, filename="<stdin>", gnu_comma=True, va_opt=True, counter=0):
+    def __init__(self, filename="<stdin>", gnu_comma=True, va_opt=True, counter=0, stringize_escapes_everything=False):
         self.macros = {}
+        self.stringize_escapes_everything = stringize_escapes_everything   # known deviation, see stringize()
+        self.stringized = 0       # number of # evaluations whose result was one valid string literal
         self.filename = filename
         self.base_file = filename
         self.gnu_comma = gnu_comma
@@ -668,12 +676,12 @@ class Preprocessor(object):
                 if nx.s == "__VA_OPT__" and self.va_opt and m.variadic:
                     j, inner = self._va_opt_extent(body, i + 1)
                     toks = self._va_opt_value(m, inner, args)
-                    s = stringize([x for x in toks if x is not PLACEMARKER])
+                    s = self._stringize([x for x in toks if x is not PLACEMARKER])
                     self.features.add("stringize-va-opt")
                     end = j
                 else:
                     a = args.get(nx.s)
-                    s = stringize(a or [])
+                    s = self._stringize(a or [])
                     self.features.add("stringize")
                     if a and self._names_macro(a):
                         self.features.add("stringize-operand-contains-macro-name")
@@ -685,7 +693,7 @@ class Preprocessor(object):
                 next_is_paste = end < n and body[end].s == "##" and body[end].kind == PUNCT
                 if prev_is_paste or next_is_paste:
                     raise Undefined("#-and-##-order-unspecified")
-                st = Tok(s, STR, t.ws, False, t.line)
+                st = Tok(s, STR, t.ws, False, t.line, org="#")
                 ops.append(("tok", [st], "str"))
                 i = end
                 continue
@@ -781,6 +789,34 @@ class Preprocessor(object):
         if [x.s for x in ltr] != [x.s for x in rtl]:
             raise Undefined("##-order-unspecified")
         return ltr
+
+    def _stringize(self, toks):
+        """# on an operand: stringize() plus a record of what kind of tokens the operand held (evidence / signatures)."""
+        for x in toks:
+            if x.kind in (STR, CHR):
+                what = "string-literal" if x.kind == STR else "character-constant"
+                self.features.add("stringize-" + what)
+                q = x.s.index('"' if x.kind == STR else "'")
+                if q:
+                    self.features.add("stringize-prefixed-" + what)
+                inner = x.s[q + 1:-1]
+                if "\\" in inner:
+                    self.features.add("stringize-%s-containing-backslash" % what)
+                if '"' in inner:
+                    self.features.add("stringize-%s-containing-double-quote" % what)
+                if "'" in inner:
+                    self.features.add("stringize-%s-containing-single-quote" % what)
+                if not inner:
+                    self.features.add("stringize-empty-string-literal")
+                if x.org == "#":
+                    self.features.add("stringize-result-of-#")      # nested quoting
+                if x.hs:
+                    self.features.add("stringize-literal-after-macro-replacement")     # reached # through a rescan
+            elif "\\" in x.s or '"' in x.s:
+                self.features.add("stringize-backslash-outside-literal")
+        s = stringize(toks, self.stringize_escapes_everything)
+        self.stringized += 1
+        return s
 
     def _names_macro(self, toks):
         """Does the token list hold an identifier that names a macro and is not painted (evidence only)?"""
